@@ -1097,6 +1097,11 @@ struct DedupCase {
     /// ms after that. While the first exchange is still in flight the third must share it.
     #[serde(default)]
     quitter: Option<(u16, u16, u16)>,
+    /// Some((patience, gap)): the *only* caller drops its lookup after `patience` ms; an identical
+    /// caller starts `gap` ms later. Nothing is in flight any more, so the second lookup is a new
+    /// one and must cause an exchange of its own.
+    #[serde(default)]
+    creator_quits: Option<(u16, u16)>,
 }
 
 fn per_server_counts(log: &[Exch], upto: Option<u64>) -> BTreeMap<(usize, bool), u32> {
@@ -1164,7 +1169,48 @@ fn run_dedup_quitter(d: &DedupCase, q: (u16, u16, u16), rec: &mut Rec) -> CaseRe
     Ok(())
 }
 
+fn run_dedup_creator_quits(d: &DedupCase, q: (u16, u16), rec: &mut Rec) -> CaseResult {
+    let c = &d.base;
+    let (patience, gap) = (q.0.max(1), q.1);
+    let later = patience.saturating_add(gap).saturating_add(1);
+    // X: the only caller for question 0 gives up in flight, then question 0 is asked again.
+    // Y: the same, except that the caller who gives up asked *another* question, so that the later
+    //    lookup certainly has nothing to share. Once the abandoned lookup is gone the two pools are
+    //    in the same state, and the later lookup must fare the same in both.
+    let x = vec![Caller { q: 0, start_ms: 0, give_up_ms: patience }, Caller { q: 0, start_ms: later, give_up_ms: 0 }];
+    let y = vec![Caller { q: 1, start_ms: 0, give_up_ms: patience }, Caller { q: 0, start_ms: later, give_up_ms: 0 }];
+    let rx = run_pool(c, &x, false)?;
+    let ry = run_pool(c, &y, false)?;
+    classify(c, rec);
+    rec.class("dedup:only-caller-gives-up,then-asked-again");
+    let abandoned = matches!(rx.results[0].outcome, Outcome::Abandoned) && matches!(ry.results[0].outcome, Outcome::Abandoned);
+    rec.class(if abandoned { "creator:abandoned-in-flight" } else { "creator:completed-before-giving-up" });
+    if !abandoned || matches!(strategy_of(c.strategy), ServerOrderingStrategy::QueryStatistics) {
+        return Ok(());
+    }
+    rec.nontrivial();
+    let (bx, by) = (&rx.results[1], &ry.results[1]);
+    let after = |r: &Run, t: u64| r.log.iter().filter(|e| e.t >= t).count();
+    vensure!(
+        bx.outcome.brief() == by.outcome.brief() && bx.t_done == by.t_done && after(&rx, bx.t_start) == after(&ry, by.t_start),
+        "abandoned-lookup-left-behind-changes-later-lookups",
+        "the only caller dropped its lookup at {} ns; an identical lookup started at {} ns got {} at {} ns with {} new exchanges, but {} at {} ns with {} new exchanges when the abandoned lookup had been for another name",
+        rx.results[0].t_done,
+        bx.t_start,
+        bx.outcome.brief(),
+        bx.t_done,
+        after(&rx, bx.t_start),
+        by.outcome.brief(),
+        by.t_done,
+        after(&ry, by.t_start)
+    );
+    Ok(())
+}
+
 fn run_dedup(d: &DedupCase, rec: &mut Rec) -> CaseResult {
+    if let Some(q) = d.creator_quits {
+        return run_dedup_creator_quits(d, q, rec);
+    }
     if let Some(q) = d.quitter {
         return run_dedup_quitter(d, q, rec);
     }
@@ -1485,7 +1531,11 @@ fn dedup_case() -> impl Strategy<Value = DedupCase> {
         3 => Just(None),
         2 => (prop_oneof![Just(0u16), 1u16..30, 30u16..400], prop_oneof![1u16..20, 20u16..300], prop_oneof![Just(0u16), 1u16..50]).prop_map(Some),
     ];
-    (pool_case(2), 2u8..=5, quitter).prop_map(|(base, k, quitter)| DedupCase { base, k, quitter })
+    let creator_quits = prop_oneof![
+        5 => Just(None),
+        1 => (prop_oneof![1u16..20, 20u16..300, 300u16..3000], prop_oneof![Just(0u16), 1u16..50, 50u16..2000]).prop_map(Some),
+    ];
+    (pool_case(2), 2u8..=5, quitter, creator_quits).prop_map(|(base, k, quitter, creator_quits)| DedupCase { base, k, quitter, creator_quits })
 }
 
 pub fn check() -> Option<Check> {
